@@ -70,6 +70,7 @@ inductive PyErr
   | notImplementedError
   | overflowError
   | stopIteration
+  | pathOpsError
 deriving Repr, BEq, DecidableEq
 
 def PyErr.name : PyErr → String
@@ -83,6 +84,7 @@ def PyErr.name : PyErr → String
   | .notImplementedError => "NotImplementedError"
   | .overflowError => "OverflowError"
   | .stopIteration => "StopIteration"
+  | .pathOpsError => "PathOpsError"
 
 namespace TransformParse
 open Str
